@@ -2,6 +2,7 @@ import Drv.Walk
 import FsutilModel.Model.SyncB
 import FsutilModel.Model.Filter
 import FsutilModel.Model.FollowLinks
+import FsutilModel.Lemmas.C18Fuel
 open Lean Fsm
 
 namespace Drv
@@ -108,7 +109,8 @@ def hSync (j : Json) : Except String Json := do
     -- is the include set FollowLinks computed closed for these requests (C18 reference)? (known findings F12/F19 make it open)
     let l := viewToFL full
     let r := FL.followLinks Fix.f4 l paths (8 * (l.length + 2) + 64)
-    out := out ++ [("follow_spec", toJson (FL.specFollow l paths r).ok), ("follow_metalink", toJson (FL.metaLink l))]
+    out := out ++ [("follow_spec", toJson (FL.specFollow l paths r).ok), ("follow_metalink", toJson (FL.metaLink l)),
+                   ("follow_fuel_ok", toJson (!(FL.resolveAllX l (8 * (l.length + 2) + 64) paths).2))]
   | none => pure ()
   -- C05: the notifications the implementation made, judged by the listing-level spec
   match j.getObjVal? "notif" with
